@@ -187,5 +187,54 @@ Definition frees (t : N) (tr : list ev) : nat :=
 Definition bodies (t : N) (tr : list ev) : nat :=
   countb (fun e : ev => match fst e with MBody => N.eqb (snd e) t | _ => false end) tr.
 
+
+(* ------------------------------------------------ nested execution on one thread (depth 1)
+   While the user function t() of a scheduled task runs, it may block in a tasking wait (AsyncTask::get,
+   parallel_for); its thread then helps out and executes other scheduled tasks [inner] NESTED, i.e. while
+   the outer ExecuteRange is still on the stack.  Statement: a task object is never freed while its
+   ExecuteRange is on the stack — the reclaim slot is written only after the user function returned. *)
+Inductive nev := NEnter (t : N) | NLeave (t : N) | NBody (t : N) | NFree (t : N) | NDec (t : N).
+Definition opt_free (p : option N) : list nev := match p with Some q => [NFree q] | None => [] end.
+Fixpoint leaf_range (xs : list xstmt) (t : N) (pending : option N) : list nev * option N :=
+  match xs with
+  | [] => ([], pending)
+  | XBody :: r => let (e, p) := leaf_range r t pending in (NBody t :: e, p)
+  | XFreeSelf :: r => let (e, p) := leaf_range r t pending in (NFree t :: e, p)
+  | XDefer :: r => let (e, p) := leaf_range r t (Some t) in (opt_free pending ++ e, p)
+  end.
+Definition leaf_run (xs : list xstmt) (t : N) (pending : option N) : list nev * option N :=
+  let (e, p) := leaf_range xs t pending in (NEnter t :: e ++ [NLeave t; NDec t], p).
+Fixpoint leaves_run (xs : list xstmt) (ts : list N) (pending : option N) : list nev * option N :=
+  match ts with
+  | [] => ([], pending)
+  | t :: r => let (e, p) := leaf_run xs t pending in let (e2, p2) := leaves_run xs r p in (e ++ e2, p2)
+  end.
+Fixpoint outer_range (xs0 xs : list xstmt) (t : N) (inner : list N) (pending : option N) : list nev * option N :=
+  match xs with
+  | [] => ([], pending)
+  | XBody :: r => let (ei, p1) := leaves_run xs0 inner pending in
+                  let (e, p) := outer_range xs0 r t inner p1 in (NBody t :: ei ++ e, p)
+  | XFreeSelf :: r => let (e, p) := outer_range xs0 r t inner pending in (NFree t :: e, p)
+  | XDefer :: r => let (e, p) := outer_range xs0 r t inner (Some t) in (opt_free pending ++ e, p)
+  end.
+Definition outer_run (xs : list xstmt) (t : N) (inner : list N) (pending : option N) : list nev :=
+  let (e, p) := outer_range xs xs t inner pending in
+  NEnter t :: e ++ [NLeave t; NDec t] ++ opt_free p (* thread exit *).
+Definition memN (t : N) (l : list N) : bool := existsb (N.eqb t) l.
+Fixpoint stack_safe (stack freed : list N) (tr : list nev) : bool :=
+  match tr with
+  | [] => true
+  | NEnter t :: r => negb (memN t freed) && stack_safe (t :: stack) freed r
+  | NLeave t :: r => stack_safe (filter (fun u => negb (N.eqb u t)) stack) freed r
+  | NBody t :: r | NDec t :: r => negb (memN t freed) && stack_safe stack freed r
+  | NFree t :: r => negb (memN t stack) && negb (memN t freed) && stack_safe stack (t :: freed) r
+  end.
+(* the shapes checked: 0..3 nested tasks, slot empty or holding an earlier task *)
+Definition nested_shapes : list (list N * option N) :=
+  [([], None); ([], Some 9); ([2], None); ([2], Some 9); ([2; 3], None); ([2; 3], Some 9); ([2; 3; 4], Some 9)]%N.
+Definition nested_ok (xs : list xstmt) : bool :=
+  forallb (fun s => stack_safe [] [] (outer_run xs 1%N (fst s) (snd s))) nested_shapes.
+Definition exec_range_defer_first := [XDefer; XBody].   (* the slot written BEFORE the user function runs *)
+
 Definition exec_range_old := [XBody; XFreeSelf].     (* as found *)
 Definition exec_range_fixed := [XBody; XDefer].      (* repaired: reclaim after the scheduler's decrement *)
